@@ -51,6 +51,16 @@ def recall (m : Option Mem) (e : Event) : Mem :=
   | some mem => mem
   | none => { noticed := e.byListing, fullyHandled := false }
 
+/-- The only other creator of an object's memory: `admission.serve_admission_request` →
+    `memories.recall_memo(raw_body, ephemeral = (operation == 'CREATE'))` → `recall(...)` with
+    `noticed_by_listing` left at its default (False). A known memory is returned as it is; for an unknown
+    object a CREATE request gets a throw-away memory, every other operation (UPDATE, DELETE, CONNECT)
+    a persistent one. -/
+def admission (m : Option Mem) (create : Bool) : Option Mem :=
+  match m with
+  | some mem => some mem
+  | none => if create then none else some { noticed := false, fullyHandled := false }
+
 def inOf (mem : Mem) (e : Event) : C05.In :=
   { deleted := e.deleted, marked := e.marked, blocked := e.blocked, oldAbsent := e.oldAbsent,
     diffNonEmpty := e.diffNonEmpty, initial := mem.noticed && !mem.fullyHandled }
@@ -76,6 +86,15 @@ structure StepResult where
   invoked : List (C02.Id × Nat)
   closed : Bool
 
+/-- The tail of `process_changing_cause` for the cause FREE (an object marked for deletion that the operator's
+    finalizer does not hold, kept alive by somebody else's): no handler will ever run for it again, so whatever
+    progress records the owned handlers left behind are purged — the same purge as on a no-op
+    (/repo 40d09eb; C02's `cycle` has the no-op one only). -/
+def freePurge (decls : List Decl) (c : C05.Cause) (P : C02.Store) : C02.Store :=
+  if c.reason = .free then
+    C02.purge P (C02.fromStorage P (decls.map (·.id))) (decls.map (·.id)) (decls.map (·.id))
+  else P
+
 /-- One `process_resource_event` for the object, as far as resuming is concerned. -/
 def step (decls : List Decl) (m : Option Mem) (P : C02.Store) (e : Event) : StepResult :=
   let mem := recall m e
@@ -86,7 +105,8 @@ def step (decls : List Decl) (m : Option Mem) (P : C02.Store) (e : Event) : Step
     let newly := (C02.cycleFinals (cfgOf decls mem e) P e.now e.exec).filter (isInitial decls)
     let mem' : Mem := { mem with fullyHandled := mem.fullyHandled || r.closed,
                                  resumed := if r.closed then [] else mem.resumed ++ newly }
-    { mem := if e.deleted then none else some mem', P := r.P', invoked := r.invoked, closed := r.closed }
+    { mem := if e.deleted then none else some mem', P := freePurge decls (causeOf mem e) r.P',
+      invoked := r.invoked, closed := r.closed }
 
 /-- A whole history of events of one object within one operator process. -/
 def run (decls : List Decl) : Option Mem → C02.Store → List Event → List (List (C02.Id × Nat))
